@@ -88,7 +88,8 @@ theorem chunkOK_of_construct {song : Song} {d : DataInfo} (hpc : PlatformClean d
 theorem song_plays {song : Song} {d : DataInfo} (hpc : PlatformClean d) (hp : PlainSong song) {vol : Option String}
     {b : Built} (h : construct song d vol = .ok b) (hlen : b.seq.length < 65536) (pf : Timeline.Platform)
     {id : Nat} {root : List Event} (hmem : (id, root) ∈ song.tracks) (hid : id < 16)
-    (hseg0 : Timeline.segnoAtDepth0 0 root = true) (hcnt : segCount root ≤ 1)
+    (hR : RoutinesOK song b)
+    (hseg0 : Timeline.segnoAtDepth0 0 root = true) (hcnt : segCount root ≤ 1) (hloop : LoopDrumOK root)
     {t : List Tk} (hexp : Timeline.expected song pf root = .ok t) (mj : Nat) :
     ∃ ts stream pre, tracksOf b.seq = some (4 + 4 * b.trackList.length, ts) ∧ ts.lookup id = some pre.length ∧
       pre ++ stream <+: b.seq ∧ ChanResult b pre stream mj t := by
@@ -152,7 +153,7 @@ theorem song_plays {song : Song} {d : DataInfo} (hpc : PlatformClean d) (hp : Pl
     · exact .inl rfl
     · exact .inr rfl
   obtain ⟨hsplit, hprel⟩ := split_of_drop a5 hne
-  have hres := chan_plays pf hp hc hmem hch hfitT hconv hsplit hseg0 hcnt hexp mj
+  have hres := chan_plays pf hp hc hR hmem hch hfitT hconv hsplit hseg0 hcnt hloop hexp mj
   refine ⟨_, stream, b.seq.take (4 + 4 * b.trackList.length + off), htr, ?_, ?_, hres⟩
   · rw [hprel]
     apply lookup_unique
